@@ -35,11 +35,19 @@ package genesis
 // genesis account holds is declared in the token configuration (the last of the three loops; `visited` is the ghost set of
 // keys the range loop over the map has produced).
 //@ spec declaredUpTo(g *GenesisConfig, z types.ZenonTokenStandard, n int) bool = exists k int :: 0 <= k && k < n && k < len(g.TokenConfig.Tokens) && g.TokenConfig.Tokens[k].TokenStandard == z
+// (as many distinct accounts in `seen` as entries, every entry's account in it: no account is listed twice - pigeonhole, on paper)
 //@ func CheckTokenTotalSupply(g) -> (err)
 //@   trusted
 //@   ensures result == nil <==> g.okSupply
 //@   ensures-local[every-held-token-is-declared] err == nil ==> (forall z types.ZenonTokenStandard :: has(given, z) ==> declaredUpTo(g, z, len(g.TokenConfig.Tokens)))
+//@   ensures-local[no-account-is-listed-twice] err == nil ==> len(seen) == len(g.GenesisBlocks.Blocks) && (forall k int :: 0 <= k && k < len(g.GenesisBlocks.Blocks) ==> has(seen, g.GenesisBlocks.Blocks[k].Address))
+//@   at-call Set assert[only-non-negative-balances-enter-the-sums] val(arg1) >= 0
+//@   at-call Add assert[only-non-negative-balances-enter-the-sums] val(arg2) >= 0
 //@   modifies nothing
+//@   loop 1
+//@     invariant g.GenesisBlocks.Blocks.arr == old(g.GenesisBlocks.Blocks.arr) && g.GenesisBlocks.Blocks.off == old(g.GenesisBlocks.Blocks.off) && len(g.GenesisBlocks.Blocks) == old(len(g.GenesisBlocks.Blocks))
+//@     invariant forall k int :: 0 <= k && k <= rangeindex#1 ==> has(seen, g.GenesisBlocks.Blocks[k].Address)
+//@     invariant len(seen) == rangeindex#1 + 1
 //@   loop 4
 //@     invariant forall z types.ZenonTokenStandard :: visited(given, z) ==> declaredUpTo(g, z, len(g.TokenConfig.Tokens))
 //@   loop 5
@@ -76,3 +84,13 @@ package genesis
 //@ func ReadGenesisConfigFromFile(genesisFile)
 //@   at-call NewGenesis assert[built-only-after-the-checks-accepted-the-configuration-as-read] calls("CheckGenesis") == 1 && arg0 == config
 //@   at-call CheckGenesis assert[checked-before-anything-is-built-from-it] calls("NewGenesis") == 0 && arg0 == config
+
+
+// The holdings of a contract account: an account that has NO genesis block holds nothing, so it can only be required to hold
+// nothing (before the fix the comparison ran over the account's blocks only and passed vacuously when there was none).
+//@ func checkAccountBalance(g, addr, required) -> (err)
+//@   ensures-local[an-account-without-a-genesis-block-holds-nothing] err == nil && (forall k int :: 0 <= k && k < len(g.GenesisBlocks.Blocks) ==> g.GenesisBlocks.Blocks[k].Address != addr) ==> (forall z types.ZenonTokenStandard :: has(required, z) ==> val(required[z]) == 0)
+//@   loop 1
+//@     invariant found ==> (exists k int :: 0 <= k && k <= rangeindex#1 && g.GenesisBlocks.Blocks[k].Address == addr)
+//@   loop 4
+//@     invariant forall z types.ZenonTokenStandard :: visited(required, z) ==> val(required[z]) == 0
